@@ -15,6 +15,7 @@ import DuneVerif.Proofs.C15Pool
 import DuneVerif.Proofs.C15Intr
 import DuneVerif.Proofs.C15Raw
 import DuneVerif.Proofs.C15Keep
+import DuneVerif.Proofs.C15Grow
 
 namespace DV.C15
 open DV.C15.Gen
@@ -482,6 +483,51 @@ example : DInv 4096 [⟨0x10000, 0x10000, 2, 4096, 4096⟩, ⟨0x30000, 0x30000 
 -- deallocating with a wrong size aborts (`none`)
 example : dbgRun 1 4096 [] [.alloc 100 (some 0x30000), .free (0x30000 + 4096 - 100) 99] = none := by decide
 
+/-! ## Pool::grow: the loop bounds (regenerated from the source) -/
+
+/-- for all sizes, alignments and pool sizes: the loop of `Pool::grow` — `for (e = growFirst; e < growEnd; e += growStep)`
+    with the three bounds regenerated from the source — visits exactly the byte offsets of the slots `1 … elements-1`
+    (slot `i` at `i * alignedSize`), each once and in increasing order: the list `List.range' 1 (elements - 1)` the models
+    `igrow`/`growTail` thread onto the free list behind slot 0.  No slot is skipped, none lies beyond the last whole
+    slot of the chunk -/
+theorem grow_threads_exactly_the_slots (sz al s : Nat) (hal : 0 < al) :
+    growLoopOffsets (growFirst sz al s) (growStep sz al s) (growEnd sz al s) =
+      (List.range' 1 (elements sz al s - 1)).map (fun i => i * alignedSize sz al s) := by
+  obtain ⟨hE, _, _, hA, _⟩ := geometry_sound sz al s hal
+  have ha : 0 < alignedSize sz al s := by
+    have : refSize = 8 := rfl
+    omega
+  unfold growFirst growStep growEnd
+  exact growLoop_canonical _ _ ha hE
+
+example : growLoopOffsets (growFirst 24 8 100) (growStep 24 8 100) (growEnd 24 8 100) = [24, 48, 72] ∧
+    elements 24 8 100 = 4 ∧ growLoopOffsets (growFirst 100 4 1) (growStep 100 4 1) (growEnd 100 4 1) = [] := by decide
+
+/-! ## Pool::free: the range test (regenerated from the source) -/
+
+/-- the search of `Pool::free` (without `NDEBUG`) stops at a chunk exactly when the address lies inside the chunk's
+    storage `[base, base + chunkSize)` — for all addresses and sizes -/
+theorem free_range_test_exact (base b chunkSize : Nat) :
+    poolFreeInRange base b chunkSize = true ↔ (base ≤ b ∧ b < base + chunkSize) := by
+  unfold poolFreeInRange
+  rw [decide_eq_true_eq]   -- `x > b` is `b < x`: what remains is closed by `rfl`
+
+/-- the model's test on block names is this test at the block's address: for a slot `(c, i)` of a chunk placed at
+    `base`, the generated condition is `i * alignedSize < chunkSize`, what `inSomeChunk`/`ifree` evaluate; the
+    addresses just behind the storage (`fe`) and just in front of it (`fb`) are outside -/
+theorem free_range_test_slot (g : Geo) (base i : Nat) :
+    poolFreeInRange base (base + i * g.alignedSize) g.chunkSize = decide (i * g.alignedSize < g.chunkSize) ∧
+    poolFreeInRange base (base + g.chunkSize) g.chunkSize = false ∧
+    (0 < base → poolFreeInRange base (base - 1) g.chunkSize = false) := by
+  unfold poolFreeInRange
+  refine ⟨?_, ?_, ?_⟩
+  · by_cases h : i * g.alignedSize < g.chunkSize <;> simp [h] <;> omega
+  · simp
+  · intro hb; simp; omega
+
+example : poolFreeInRange 4096 4096 48 = true ∧ poolFreeInRange 4096 4143 48 = true ∧ poolFreeInRange 4096 4144 48 = false ∧
+    poolFreeInRange 4096 4095 48 = false := by decide
+
 /-! ## DebugAllocator, compile-time configuration `DEBUG_ALLOCATOR_KEEP`
 
 `deallocate` keeps the entry of a released block and keeps its mapping (inaccessible); only the destructor gives memory
@@ -530,6 +576,19 @@ theorem keep_blocks_never_reused (sz page : Nat) (hsz : 0 < sz) (hp : 0 < page) 
   have hab' : apart page b a := by unfold apart at hab ⊢; omega
   exact ⟨(blocks_apart (he a ha) (he b hb) hab).1, (blocks_apart (he a ha) (he b hb) hab).2,
     (blocks_apart (he b hb) (he a ha) hab').2⟩
+
+/-- requests that cannot be served are refused in the KEEP configuration as well (`allocate` is the same code): the
+    list is untouched and nothing is mapped -/
+theorem keep_overflow_refused (sz page n : Nat) (hp2 : 2 * page ≤ sizeMax) (h : sizeMax < n * sz + 2 * page)
+    (mm : Option Nat) (l : List KInfo) :
+    kAllocate sz page n (fun _ => mm) l = .error .alloc ∧ kStep sz page l (.alloc n mm) = some (l, []) := by
+  have h1 : kAllocate sz page n (fun _ => mm) l = .error .alloc := by
+    unfold kAllocate; rw [dbg_refused' hp2 h]
+  exact ⟨h1, by simp [kStep, h1]⟩
+
+example : kStep 8 4096 [] (.alloc 2305843009213693953 (some 0x10000)) = some ([], []) := by
+  have := (keep_overflow_refused 8 4096 2305843009213693953 (by decide) (by decide) (some 0x10000) []).2
+  exact this
 
 /-- why the mapping must be kept together with the entry: if a released entry's range were handed out again (possible
     only once it is unmapped), the stale entry is found first and the legal `deallocate` of the new block aborts -/
